@@ -16,10 +16,10 @@ from ..oracle.hyper import project_exact
 
 LEVEL = "exploration"
 NEEDS = ["cli"]
-RULE = ("spectra with 1-4 axes (lengths 1-6 incl. axes of length 1; positive real / integer values; npy or text input) x ALL 16 subsets of "
+RULE = ("spectra with 1-4 axes (lengths 1-6 incl. axes of length 1; positive real / integer values, a quarter of the inputs signed (differences, fold --fill minus-one output); npy or text input) x ALL 16 subsets of "
         "{marginalize, project, mask-monomorphic, normalize} x random admissible axis sets (-m or -M) and targets (--project-shape or "
         "-individuals) x output {text precision 0/6/12/18/30, npy}; each combined run is compared byte-for-byte with the chain of single-option runs "
-        "through npy pipes. Direct checks: mask zeroes exactly the first and last cell, normalize sums to 1 (1e-12*cells) and preserves ratios "
+        "through npy pipes, and (npy / precision >= 12 output) cell by cell with the documented pipeline evaluated in exact rational arithmetic (1e-9 of sum|x|). Direct checks: mask zeroes exactly the first and last cell, normalize sums to 1 (1e-12*cells) and preserves ratios "
         "(1e-12), plain view reproduces the input within 0.5*10^-p. Non-trivial: >=2 options active; distinct = digest(input, argv).")
 ASSUMPTIONS = ["npy pipes between chained invocations are lossless (C07/C15 check that separately)"]
 FLOORS = {"quick": {"evaluations": 500, "distinct_nontrivial": 300, "counts": {"combined_vs_chain": 500, "mask_checks": 100, "normalize_checks": 100, "pipeline_vs_exact": 250, "signed_inputs": 10}},
